@@ -266,6 +266,7 @@ int main(int argc, char **argv)
 	if (thorough) for (int L = 100; L <= 255; L++) Ls[nL++] = L;
 	else for (int L = 100; L <= 255; L++) if (L <= 102 || L >= 253 || (L % 7) == 0 || (L >= 127 && L <= 129) || (L >= 151 && L <= 153)) Ls[nL++] = L;
 	xp_init("C08", a.tier, 1024, a.budget_s);
+	xp_guard("!C08", NULL, 0);
 	if (a.replay) { job(xp_load_replay(a.replay)); return 0; }
 	hc_quiet();
 	xp_run_jobs(nL, job, a.workers);
